@@ -27,6 +27,7 @@ type tamperTarget struct {
 	textKeys   bool
 	renew      func()
 	acceptedOK func() string
+	skipText   func() bool // the honest import itself fails (reported separately): nothing to compare an accepted text variant with
 }
 
 func flipEach(b []byte) [][]byte {
@@ -170,7 +171,7 @@ func (m *monitor) tamper(format string, h historySpec, sel string, bundle *keyst
 	if after := t.dump(); !dumpsEqual(dumpBefore, after) {
 		m.violate(format, h, sel, "other-client", "rejected-import-changed-target(getters)", map[string]interface{}{"before": dumpBefore.Render(), "after": after.Render()})
 	}
-	if t.textKeys {
+	if t.textKeys && !t.skipText() {
 		for i, k := range flipEach(bundle.Keys) {
 			r.Count("tampered_keys_text_imports", 1)
 			check("keys-text", i, &keystore.KeysBackup{Keys: k, Data: append([]byte(nil), bundle.Data...)}, false)
